@@ -167,16 +167,21 @@ func startWatchdog(limit time.Duration) {
 	progress.Store(time.Now().UnixNano())
 
 	go func() {
-		lastBeats, lastChange := beats.Load(), time.Now()
+		// the limit is counted in one-second ticks of THIS goroutine during which nothing moved, not as a difference of
+		// wall-clock readings: when the whole process (or the machine under it) is suspended for a while - a snapshot of
+		// the virtual machine, a stopped process group - the clock jumps but only one tick passes
+		lastBeats, lastProgress, idleTicks := beats.Load(), progress.Load(), 0
 
 		for {
 			time.Sleep(time.Second)
 
-			if b := beats.Load(); b != lastBeats {
-				lastBeats, lastChange = b, time.Now()
+			if b, p := beats.Load(), progress.Load(); b != lastBeats || p != lastProgress {
+				lastBeats, lastProgress, idleTicks = b, p, 0
+			} else {
+				idleTicks++
 			}
 
-			if time.Since(time.Unix(0, progress.Load())) > limit && time.Since(lastChange) > limit {
+			if time.Duration(idleTicks)*time.Second > limit {
 				fmt.Printf("WATCHDOG: run %v did not finish within %v - non-termination\n", currentRun.Load(), limit)
 				os.Exit(3)
 			}
